@@ -91,6 +91,11 @@ CHECKS = {
          "Rotations: all words of length <= 2 (thorough 3) over 5 generators + the octahedral group + a seed-rotated generic one; coefficient vectors, general complex and completed-real: all unit vectors, pairs and triples with phase variants for small L, unit vectors to L=6, adjacent pairs at L=8, dense vectors to L=12; N, P (cubed) and power spectrum of rotated = original to 1e-9; locality of N for every coefficient up to L=12; count/order/N-first for L=0..26.",
          "Rotated coefficients from exact quadrature of scipy's harmonics (blocks checked unitary); compiled Clebsch-Gordan kernel exercised as built.",
          "2/C08"),
+ "C05": ("exploration",
+         "complete enumeration of the density table (all elements x all intervals) and of small atom configurations (all placements of <= 3/4 atoms from an element alphabet on a site set x all bipartitions, orders, motions) against float64 table interpolation",
+         "Continuous quantifier; bounded-exhaustive over: Z = 1..103 x every one of the 4095 table intervals x 2 interior points + 8 radii beyond the table; all 8,400 placements of 1..3 atoms (thorough: + 45,360 of 4) from {H,C,O,Cl,Fe,U} on 7 sites x 125 lattice points: sum of atoms, positivity, every atom order, every bipartition (additivity, weights with 3 backgrounds, complements), 30 rigid motions.",
+         "Tolerances: 1e-4 relative vs the table (float32 kernel), 1e-5 additivity/order, 5e-4 motions up to 50 A; points within 0.3 A of a nucleus excluded; compiled kernel as built.",
+         "2/C05"),
 }
 
 ALL = ["C%02d" % i for i in range(1, 21)]
